@@ -9,7 +9,8 @@ import os
 import pathlib
 import threading
 
-MUTATING = {"mkdirs", "mkTmp", "removeTmp", "publish", "retire", "remove", "append", "rewrite", "truncate", "copy"}
+MUTATING = {"mkdirs", "mkTmp", "removeTmp", "publish", "retire", "remove", "append", "rewrite", "truncate", "copy",
+            "rename", "link", "rmdir"}
 TMP_DIRS = ("objects/tmp", "metadata/tmp", "refs/tmp")
 
 
@@ -161,6 +162,43 @@ class Tracer:
             self.event("rename", rd)
         return r
 
+    def _link(self, src, dst, *a, **k):
+        """os.link / os.symlink: a new name appears at `dst` (the unchanged code never links)"""
+        rd = self.rel(dst)
+        if rd is None:
+            return self._saved["os.link"](src, dst, *a, **k)
+        self.site("rename", rd)          # a scheduling point and a fault site like the move it stands in for
+        r = self._saved["os.link"](src, dst, *a, **k)
+        self.event("link", rd)
+        return r
+
+    def _symlink(self, src, dst, *a, **k):
+        rd = self.rel(dst)
+        if rd is None:
+            return self._saved["os.symlink"](src, dst, *a, **k)
+        self.site("rename", rd)
+        r = self._saved["os.symlink"](src, dst, *a, **k)
+        self.event("link", rd)
+        return r
+
+    def _rmdir(self, path, *a, **k):
+        r = self.rel(path)
+        if r is None:
+            return self._saved["os.rmdir"](path, *a, **k)
+        self.site("remove", r)
+        res = self._saved["os.rmdir"](path, *a, **k)
+        self.event("rmdir", r)
+        return res
+
+    def _truncate_path(self, path, length):
+        r = self.rel(path) if not isinstance(path, int) else self.fd_path.get(path)
+        if r is None:
+            return self._saved["os.truncate"](path, length)
+        self.site("openWrite", r)
+        res = self._saved["os.truncate"](path, length)
+        self.event("truncate" if self.is_tmp(r) else "copy", r)
+        return res
+
     def _remove(self, path, *a, **k):
         r = self.rel(path)
         if r is None:
@@ -276,8 +314,14 @@ class Tracer:
         self._saved = {
             "os.rename": os.rename, "os.remove": os.remove, "os.unlink": os.unlink, "os.makedirs": os.makedirs,
             "Path.mkdir": pathlib.Path.mkdir, "os.open": os.open, "open": builtins.open, "io.open": io.open,
-            "fcntl.flock": fcntl.flock, "os.listdir": os.listdir,
+            "fcntl.flock": fcntl.flock, "os.listdir": os.listdir, "os.replace": os.replace, "os.link": os.link,
+            "os.symlink": os.symlink, "os.rmdir": os.rmdir, "os.truncate": os.truncate,
         }
+        os.replace = self._rename           # _rename calls the saved os.rename: same system call family
+        os.link = self._link
+        os.symlink = self._symlink
+        os.rmdir = self._rmdir
+        os.truncate = self._truncate_path
         os.rename = self._rename
         os.remove = self._remove
         os.unlink = self._remove
@@ -296,4 +340,6 @@ class Tracer:
         pathlib.Path.mkdir = s["Path.mkdir"]
         os.open, builtins.open, io.open = s["os.open"], s["open"], s["io.open"]
         fcntl.flock, os.listdir = s["fcntl.flock"], s["os.listdir"]
+        os.replace, os.link, os.symlink, os.rmdir, os.truncate = \
+            s["os.replace"], s["os.link"], s["os.symlink"], s["os.rmdir"], s["os.truncate"]
         return False
